@@ -1,16 +1,19 @@
 """
 C19 - dictionary findall returns complete, resolvable, history-independent results.
 
-Lean: Model/FindAll.lean, Proofs/FindAll.lean, Proofs/FindAllDesc.lean, Proofs/FindAllList.lean (list roots), Props/C19.lean
+Lean: Model/FindAll.lean, Proofs/FindAll.lean, Proofs/FindAllDesc.lean, Proofs/FindAllList.lean (list roots),
+  Proofs/FindAllTail.lean ('//*/name/sub'), Props/C19.lean
 B streams: fa.tok (normalisation), fa.find (findall end to end + state of the default objects after the call),
-  fa.raw (_findall with raise_exception=False / explicit token lists), fa.first (findfirst), fa.hist (sequences of
+  fa.findm (findall(xpath, raise_exception) in both modes through the public entry point), fa.raw (_findall with raise_exception=False / explicit token lists), fa.first (findfirst), fa.hist (sequences of
   searches through the shared default objects), fa.pure (result + defaults + the container as it is AFTER the call against
   the model's answer + the tree the model was given).  Half of the trees are list-rooted (n0list.findall).
 C evaluators (the statement on the real code): search (every key through item access and get, identity; every key
   walked by plain Python indexing), exact (an exact node path finds exactly its node), fanout (name on a list),
-  descendant ('//*/name' vs an independent DFS, in the document order of the theorem, again after other searches), pure
+  descendant ('//*/name' vs an independent DFS, in the document order of the theorem, again after other searches;
+  two-step tails '//*/name/sub' vs a DFS oracle, a raise is a failure, raise_exception=False gives the same mapping), pure
   (tree unchanged), defaults (_findall.__defaults__ after every call), history (a search inside a sequence equals
-  the same search on a freshly loaded module), findfirst, mixed (findall/findfirst on list-rooted and dict-rooted
+  the same search on a freshly loaded module), findfirst (none / one / many from findall(xpath, False); a miss is never
+  IndexError/KeyError with raise_exception=False and never KeyError with True), mixed (findall/findfirst on list-rooted and dict-rooted
   containers interleaved and repeated in one process: every outcome equals the one of a freshly loaded module and the
   first outcome of the same search; encoding and identity of every node of the container unchanged; findfirst
   none/many signalling).
@@ -28,7 +31,9 @@ MANIFEST = dict(
               "arguments as explicit state + differential correspondence with the implementation (results in order, exception "
               "class, contents of _findall.__defaults__ after every call) + the statement executed on the implementation",
     text="Lean (Props/C19.lean), all unbounded in tree size, depth, expression and history length, for the code with "
-         "fixes C19-a/C19-b/C19-c applied. n0dict.findall and n0list.findall hand self to the same findall(), so the model has "
+         "fixes C19-a/b/c/d/e applied (d: a name/index step below a final element is a miss of that branch instead of "
+         "KeyError('Internal error'), so '//*/name/first' goes on with the other branches; e: findall hands raise_exception on to "
+         "_findall, which findfirst relies on). Every theorem about findallTop holds for both modes (re). n0dict.findall and n0list.findall hand self to the same findall(), so the model has "
          "one entry point (findallTop) for both roots. FOR EVERY ROOT (dict or list, any tree): C19_state_invariant - a search "
          "started from the fresh default objects ([], {}) leaves them ([], {}), for every tree, expression and outcome "
          "(exceptions included); C19_objects_untouched - no call of _findall modifies the stack dict it received and an empty "
@@ -39,7 +44,14 @@ MANIFEST = dict(
          "for findfirst; C19_pure - every value returned occurs in the tree searched (the model returns values only and does "
          "not thread the tree, so 'the tree is returned unchanged' has no content as a theorem: it is checked on the "
          "implementation by stream fa.pure and the evaluators); C19_findfirst - findfirst is the single pair / (None, None) / "
-         "IndexError exactly as documented; C19_fanout - a name applied to a list is the [*] step followed by the name; "
+         "IndexError exactly as documented, computed from findall(xpath, False); C19_findall_quiet - with raise_exception=False "
+         "findall never raises IndexError or KeyError (the two exceptions _findall uses for 'not there'), for every tree, "
+         "expression and state; C19_findfirst_signals - findfirst(xpath, False) never raises IndexError/KeyError (a miss of any "
+         "kind is (None, None)) and findfirst(xpath) never raises KeyError (its only signal is its own IndexError); "
+         "C19_scalar_step_miss - a name, index or [*] step applied to a final element returns None with both objects "
+         "untouched, in both modes; C19_history_independent_modes / C19_depends_only_modes - the history theorems for sequences "
+         "in which every search has its own raise_exception; C19_step_below_scalar_fixed and C19_raise_exception_threaded - the "
+         "witnesses of the former findings C19-d and C19-e on the model; C19_fanout - a name applied to a list is the [*] step followed by the name; "
          "C19_descendant_positions - descV lists (p, w) iff p ends with the key name and the node at p is w (both inclusions, "
          "any depth, through dicts and lists); C19_descendant_distinct - no position twice, canonical xpaths of distinct "
          "plain positions differ. FOR DICT-ROOTED TREES: C19_exact_path - the canonical xpath of a non-root position made of "
@@ -71,7 +83,13 @@ MANIFEST = dict(
          "'//' = the root itself) return that value and leave the tree unchanged; C19_resolves_list - in particular the key of "
          "an exact-path result. C19_text_key_fixed (witness of the former finding C19-c), C19_scalar_in_list_cex, "
          "C19_scalar_in_list_root_cex (a scalar in a list under a wildcard/name raises IndexError: outside the quantifier). "
-         "NOT proved, checked on the implementation only: object identity (`is`), and that the real code does not write "
+         "C19_descendant_tail (+_positions, _iff; Proofs/FindAllTail.lean): on a dict root with KeysOkV, ContOkV and no entry called "
+         "name being a list, '//*/name/sub' returns exactly, in document order, the entries sub of the dictionaries called name at "
+         "any depth under their canonical xpaths - a name that is a final element is a miss of that branch and the search goes "
+         "on (this is where fix C19-d enters the proof: fat_self_check). "
+         "NOT proved, checked on the implementation only: two-step tails with lists under name or on list roots (evaluator "
+         "descendant against a DFS oracle that fans out over lists + streams; soundness of every result is C19_keys_spell), "
+         "object identity (`is`), and that the real code does not write "
          "into the tree (the model is a pure function that does not thread the tree). The model is compared with the real "
          "findall/_findall/findfirst on results in order, exception class and the contents of _findall.__defaults__ after "
          "every call, single searches and sequences, half of the trees list-rooted; stream fa.pure also compares the encoding "
@@ -297,6 +315,15 @@ def impl_find(o, expr):
     return s
 
 
+def impl_findm(o, expr, re_):
+    """findall(xpath, raise_exception): the mode reaches _findall (fix C19-e)"""
+    reset_defaults()
+    s = show_found(core.call(lambda: o.findall(expr, re_)))
+    s += " | " + defaults_state()
+    reset_defaults()
+    return s
+
+
 def impl_pure(o, expr):
     """the outcome, the defaults and the encoding of the real container AFTER the call"""
     reset_defaults()
@@ -413,6 +440,11 @@ def check_search(c):
         if enc_val(o) != before:
             return {"what": "pure", "tree_after": enc_val(o)}
         if r[0] == "err":
+            # a raise is "no claim" only where the expression itself can be refused; a search made of names only ('*'
+            # included) on a tree of the quantifier has nothing to refuse: a name a node does not have - also a name
+            # below a final element - is a miss (former finding C19-d: KeyError "Internal error")
+            if names_only(c["expr"]):
+                return {"what": "raised", "raised": r[1], "expr": c["expr"]}
             return None
         found = r[1]
         if found is None:
@@ -435,6 +467,12 @@ def check_search(c):
         return None
     finally:
         reset_defaults()
+
+
+def names_only(expr):
+    """every step of the expression is a name (or '*'): no bracket step, no '..'"""
+    toks = model_tokens(expr)
+    return bool(toks) and all(not t.startswith("[") and t.strip() != ".." and "]" not in t and t.strip() == t for t in toks)
 
 
 def check_exact(c):
@@ -519,6 +557,8 @@ def desc_spec(node, path, name):
 
 
 def check_descendant(c):
+    if c.get("sub"):
+        return check_descendant_tail(c)
     o = X.convert(c["tree"], c["mode"])
     want = dfs_named(o, "//", c["name"])
     spec = desc_spec(o, "//", c["name"])
@@ -546,6 +586,47 @@ def check_descendant(c):
     for k in wd:
         if got[k] is not wd[k]:
             return {"key": k, "got": repr(got[k])[:100], "want": repr(wd[k])[:100]}
+    return None
+
+
+def tail_oracle(o, name, sub):
+    """'//*/name/sub' by an independent DFS: below every node called `name` (any depth) the entry `sub` - of the node itself
+    when it is a dictionary, of every element (lists of lists recursively) when it is a list; nothing below a final element"""
+    out = []
+    for p, v in dfs_named(o, "//", name):
+        out += fan_oracle(v, p, sub)
+    return out
+
+
+def check_descendant_tail(c):
+    """the descendant wildcard with a two-step tail: exactly the nodes the DFS oracle lists, whatever lies in the other
+    branches (a `name` that is a final element is a miss of that branch, not the end of the search); a raise is a failure;
+    raise_exception=False gives the same mapping; again after other searches on the same object"""
+    o = X.convert(c["tree"], c["mode"])
+    expr = "//*/" + c["name"] + "/" + c["sub"]
+    want = tail_oracle(o, c["name"], c["sub"])
+    r = core.call(lambda: o.findall(expr))
+    if r[0] != "ok":
+        return {"raised": r[1], "expr": expr, "want": [k for k, _ in want][:5]}
+    got = r[1] or {}
+    wd = dict(want)
+    if len(wd) != len(want):
+        return {"oracle_keys_collide": True}
+    missing = [k for k in wd if k not in got]
+    extra = [k for k in got if k not in wd]
+    if missing or extra:
+        return {"missing": missing[:5], "extra": extra[:5], "expr": expr}
+    for k in wd:
+        if got[k] is not wd[k]:
+            return {"key": k, "got": repr(got[k])[:100], "want": repr(wd[k])[:100]}
+    rq = core.call(lambda: o.findall(expr, False))
+    if not same_found(r, rq):
+        return {"after_related_calls": show_found(rq)[:300], "first": show_found(r)[:300], "raise_exception": False}
+    for other in ("*", c["name"] + "/" + c["sub"] + "/zz", "[0]", c["name"] + "/.."):
+        core.call(lambda: o.findall(other))
+    r2 = core.call(lambda: o.findall(expr))
+    if not same_found(r, r2):
+        return {"after_related_calls": show_found(r2)[:300], "first": show_found(r)[:300]}
     return None
 
 
@@ -588,17 +669,33 @@ def check_history(c):
         reset_defaults()
 
 
+MISS = ("IndexError", "KeyError")  # the two exceptions _findall uses for "not there"
+
+
 def check_findfirst(c):
+    """findfirst returns the first pair or signals none / many as documented: the search itself runs with
+    raise_exception=False (`findall(node, xpath, False)`), so a miss of any kind - an index out of range, '..' above the root,
+    a step below a final element - is `(None, None)` with raise_exception=False and findfirst's own IndexError otherwise;
+    only what findall(xpath, False) still raises (a malformed expression) is raised"""
     o = X.convert(c["tree"], c["mode"])
     r = core.call(lambda: o.findall(c["expr"]))
+    q = core.call(lambda: o.findall(c["expr"], False))
+    # raise_exception=False: a miss is never an exception; where the default mode answers, the quiet mode answers the same
+    if q[0] == "err" and q[1] in MISS:
+        return {"raise_exception": False, "findall_raised": q[1], "why": "a miss must be None with raise_exception=False"}
+    if r[0] == "ok" and not same_found(r, q):
+        return {"raise_exception": False, "findall": show_found(r)[:200], "findall_quiet": show_found(q)[:200]}
+    if r[0] == "err" and r[1] not in MISS and q != r:
+        return {"raise_exception": False, "findall": show_found(r)[:200], "findall_quiet": show_found(q)[:200]}
     for re_ in (True, False):
         g = core.call(lambda: o.findfirst(c["expr"], re_))
-        if r[0] == "err":
-            want = r
-            if g != want:
-                return {"raise_exception": re_, "findall_raised": r[1], "findfirst": repr(g)[:200]}
+        if g[0] == "err" and (g[1] == "KeyError" or (g[1] in MISS and not re_)):
+            return {"raise_exception": re_, "findfirst": repr(g)[:200], "why": "none is signalled by IndexError (True) / (None, None) (False)"}
+        if q[0] == "err":
+            if g != q:
+                return {"raise_exception": re_, "findall_raised": q[1], "findfirst": repr(g)[:200]}
             continue
-        found = r[1] or {}
+        found = q[1] or {}
         if len(found) == 0:
             ok = (g == ("err", "IndexError")) if re_ else (g == ("ok", (None, None)))
         elif len(found) > 1 and re_:
@@ -607,7 +704,7 @@ def check_findfirst(c):
             k0 = next(iter(found))
             ok = g[0] == "ok" and isinstance(g[1], tuple) and len(g[1]) == 2 and g[1][0] == k0 and g[1][1] is found[k0]
         if not ok:
-            return {"raise_exception": re_, "findall": show_found(r)[:200], "findfirst": repr(g)[:200]}
+            return {"raise_exception": re_, "findall": show_found(q)[:200], "findfirst": repr(g)[:200]}
     return None
 
 
@@ -647,7 +744,9 @@ def show_first(g):
 
 
 def first_spec(all_outcome, re_, g):
-    """findfirst as documented, from the outcome of findall: None when g is what it has to be"""
+    """findfirst as documented, from the outcome of findall(xpath, False): None when g is what it has to be"""
+    if g[0] == "err" and (g[1] == "KeyError" or (g[1] in MISS and not re_)):
+        return "a miss must be IndexError (True) / (None, None) (False)"
     if all_outcome[0] == "err":
         return None if g == all_outcome else "findall raised %s" % all_outcome[1]
     found = all_outcome[1] or {}
@@ -676,10 +775,13 @@ def check_mixed(c):
             o = objs[i]
             before, ids = enc_val(o), node_ids(o)
             fresh = fresh_module(live)
-            if kind == "a":
-                got = core.call(lambda: o.findall(e))
-                want = core.call(lambda: fresh.findall(o, e))
+            if kind in ("a", "q"):
+                quiet = kind == "q"  # findall(xpath, raise_exception=False)
+                got = core.call(lambda: o.findall(e, False) if quiet else o.findall(e))
+                want = core.call(lambda: fresh.findall(o, e, False) if quiet else fresh.findall(o, e))
                 same, show = same_found, lambda r: show_found(r)[:300]
+                if quiet and got[0] == "err" and got[1] in MISS:
+                    return {"step": n, "expr": e, "kind": kind, "raise_exception": False, "in_sequence": show(got), "why": "a miss must be None"}
             else:
                 re_ = kind == "T"
                 got = core.call(lambda: o.findfirst(e, re_))
@@ -693,8 +795,8 @@ def check_mixed(c):
                 return {"step": n, "expr": e, "kind": kind, "tree_changed": "identity of a node"}
             if not same(got, want):
                 return {"step": n, "expr": e, "kind": kind, "in_sequence": show(got), "fresh": show(want)}
-            if kind != "a":
-                why = first_spec(core.call(lambda: fresh.findall(o, e)), kind == "T", got)
+            if kind not in ("a", "q"):
+                why = first_spec(core.call(lambda: fresh.findall(o, e, False)), kind == "T", got)
                 if why:
                     return {"step": n, "expr": e, "kind": kind, "raise_exception": kind == "T", "findfirst": show_first(got), "why": why}
             key = (i, e, kind)
@@ -722,7 +824,7 @@ def gen_mixed(rng, trees_l, trees_d):
     for _ in range(rng.choice([4, 6, 8, 10])):
         i = rng.randrange(len(ts)) if rng.random() < 0.3 else (len(steps) % 2 if len(ts) == 2 else rng.choice([0, 1, 2, 1]))
         e = rng.choice(pool[i])
-        kind = rng.choice("aaaTF")
+        kind = rng.choice("aaaqTF")
         steps.append((i, e, kind))
         if steps and rng.random() < 0.35:  # an earlier call on a list-rooted container again, after the others
             back = [s for s in steps if isinstance(ts[s[0]]["tree"], list)]
@@ -740,7 +842,7 @@ def case_valid(ev, c):
         if ev == "mixed":
             return all(valid_tree(t) for t in c["trees"]) and len(c["trees"]) == len(c["modes"]) and all(m in ("n0", "wrap") for m in c["modes"]) \
                 and all(isinstance(s, (list, tuple)) and len(s) == 3 and isinstance(s[0], int) and 0 <= s[0] < len(c["trees"]) and isinstance(s[1], str)
-                        and s[2] in ("a", "T", "F") for s in c["steps"]) and len(c["steps"]) > 0 \
+                        and s[2] in ("a", "q", "T", "F") for s in c["steps"]) and len(c["steps"]) > 0 \
                 and any(isinstance(c["trees"][s[0]], list) for s in c["steps"])
         if ev == "history":
             return all(valid_tree(t) for t in c["trees"]) and len(c["trees"]) == len(c["modes"]) and all(m in ("n0", "wrap") for m in c["modes"]) \
@@ -800,7 +902,7 @@ def failure_kind(bad):
     if "what" in bad:
         return ("what", bad["what"])
     return tuple(sorted(k for k in bad if k in ("raised", "missing", "order", "after_related_calls", "defaults_after_call", "tree_changed",
-                                                  "in_sequence", "oracle_keys_collide", "raise_exception", "found", "got", "key", "repeat_differs", "why")))
+                                                  "in_sequence", "oracle_keys_collide", "raise_exception", "found", "got", "key", "repeat_differs", "why", "extra", "findall_raised")))
 
 
 def replay(rp):
@@ -868,6 +970,15 @@ def run(ctx):
         "fa.find", searches,
         lambda c: "fa.find %s %s" % (enc_str(c["expr"]), enc_val(X.convert(c["tree"], c["mode"]))),
         lambda c: impl_find(X.convert(c["tree"], c["mode"]), c["expr"]),
+        nontrivial=lambda c: len(model_tokens(c["expr"])) > 1,
+    )
+    # ---- B: findall(xpath, raise_exception) - both modes through the public entry point (fix C19-e)
+    rng = ctx.rng("findm")
+    findms = [dict(s, re=rng.random() < 0.3) for s in searches[:: 2]]
+    ctx.correspond(
+        "fa.findm", findms,
+        lambda c: "fa.findm %s %s %s" % ("T" if c["re"] else "F", enc_str(c["expr"]), enc_val(X.convert(c["tree"], c["mode"]))),
+        lambda c: impl_findm(X.convert(c["tree"], c["mode"]), c["expr"], c["re"]),
         nontrivial=lambda c: len(model_tokens(c["expr"])) > 1,
     )
     # ---- B: the container after the call (the model does not thread the tree: its answer ends with the tree it was given)
@@ -949,9 +1060,15 @@ def run(ctx):
                 fan.append({"tree": t["tree"], "mode": t["mode"], "pos": p, "name": name, "expr": (base + "/" if base else "") + name})
         for name in ("name", rng.choice(["a", "k", "id", "zz"])):
             desc.append({"tree": t["tree"], "mode": t["mode"], "name": name})
+        # two-step tails '//*/name/sub': names that really occur with something (or a final element) below them
+        inner_keys = sorted({p[-1] for p, v in X.positions(t["tree"]) if p and isinstance(p[-1], str)})
+        for name in ["name"] + ([rng.choice(inner_keys)] if inner_keys else []):
+            subs = sorted({q[-1] for q, v in X.positions(t["tree"]) if len(q) >= 2 and isinstance(q[-1], str) and name in q[:-1]})
+            desc.append({"tree": t["tree"], "mode": t["mode"], "name": name, "sub": rng.choice(subs + ["a", "name", "zz"]) if subs else rng.choice(["a", "k", "name"])})
     ctx.evaluate("exact", exact, check_exact, nontrivial=lambda c: len(c["pos"]) > 1)
     ctx.evaluate("fanout", fan, check_fanout, nontrivial=lambda c: len(X.get_at(c["tree"], c["pos"])) > 1)
-    ctx.evaluate("descendant", desc, check_descendant, nontrivial=lambda c: len(dfs_named(c["tree"], "//", c["name"])) > 1)
+    ctx.evaluate("descendant", desc, check_descendant,
+                 nontrivial=lambda c: len(dfs_named(c["tree"], "//", c["name"])) > 1 and (not c.get("sub") or len(tail_oracle(c["tree"], c["name"], c["sub"])) > 0))
 
     ctx.extra["assumptions"] = [
         "trees have plain-name keys (no '/', '[', leading '?': an n0dict resolves such keys as xpaths) and scalar leaves str/int/float/bool/None",
@@ -960,9 +1077,11 @@ def run(ctx):
         "object identity is checked on the implementation only; the model speaks about values/positions",
         "the model does not thread the tree (it is an argument, never part of a result): 'the tree is not modified' is checked on the implementation (stream fa.pure: encoding after the call; evaluators search/history/mixed: encoding and identity of every node)",
         "n0list.findall / n0dict.findall hand self to the same findall(): one model entry point (findallTop) for both roots; half of the generated trees are list-rooted",
+        "the model follows n0struct_findall.py with fixes C19-a ... C19-e applied (d: a step below a final element is a miss; e: findall passes raise_exception on to _findall)",
+        "'as documented' for findfirst: there is no prose documentation; the contract is the signature (raise_exception=True) and the code of findfirst itself - it searches with findall(node, xpath, False) and signals none by IndexError('Not found item') / (None, None), many by IndexError / the first pair",
         "'fresh search' of the history evaluator = the same search on a newly executed copy of n0struct_findall.py (new function objects, new default objects)",
     ]
-    ctx.extra["trusted_base"] = ["model of findall/_findall/findfirst (lean/N0Verif/Model/FindAll.lean), validated by streams fa.tok/fa.find/fa.raw/fa.first/fa.hist/fa.pure"]
+    ctx.extra["trusted_base"] = ["model of findall/_findall/findfirst (lean/N0Verif/Model/FindAll.lean), validated by streams fa.tok/fa.find/fa.findm/fa.raw/fa.first/fa.hist/fa.pure"]
     ctx.extra["distribution"] = {
         "trees": len(trees), "in_quantifier": sum(1 for t in trees if t["inq"]), "searches": len(searches), "histories": len(hists),
         "exact": len(exact), "fanout": len(fan), "descendant": len(desc),
@@ -973,7 +1092,8 @@ def run(ctx):
         "list_rooted_exact": sum(1 for c in exact if isinstance(c["tree"], list)),
         "list_rooted_fanout_at_root": sum(1 for c in fan if not c["pos"]),
         "list_rooted_descendant": sum(1 for c in desc if isinstance(c["tree"], list)),
-        "mixed": len(mixed), "mixed_findfirst_steps": sum(1 for c in mixed for st in c["steps"] if st[2] != "a"),
+        "mixed": len(mixed), "mixed_findfirst_steps": sum(1 for c in mixed for st in c["steps"] if st[2] in "TF"),
+        "descendant_two_step": sum(1 for c in desc if c.get("sub")), "findm": len(findms),
         "findfirst_list_rooted": len(first_list),
     }
 
